@@ -57,9 +57,7 @@ def _classes():
 
     def build_network(start, ana, var):
         ns, volt = start["ns"], start["volt"]
-        order = list(range(1, ns + 1))
-        if var.st_perm:
-            order = [order[i] for i in var.st_perm]
+        order = ar.station_order(ns, var)
         net = ar.RecordingNetwork()
         kinds = var.evse_kinds or ["cont"] * ns
         for s in order:
